@@ -2734,6 +2734,19 @@ class ConvertRecordsNode(ViewRepresentation):
                 ops_key=None,
             )
             assert isinstance(near_sql, data_algebra.near_sql.NearSQL)
+        if using is not None:
+            # the raw query steps above have no term list of their own: give consumers one they can narrow
+            columns = [c for c in self.column_names if c in using]
+            if len(columns) > 0:
+                view_name = "convert_records_" + str(temp_id_source[0])
+                temp_id_source[0] = temp_id_source[0] + 1
+                near_sql = data_algebra.near_sql.NearSQLUnaryStep(
+                    terms={c: None for c in columns},
+                    query_name=view_name,
+                    quoted_query_name=db_model.quote_identifier(view_name),
+                    sub_sql=near_sql.to_bound_near_sql(columns=columns),
+                    ops_key=None,
+                )
         return near_sql
 
 
